@@ -89,8 +89,10 @@ CHECKS = {
         text=("Machine-checked proof (Coq) over the cut form: complexify(m,R) evaluates as m AND python_full_version in R for every valuation and "
               "is that conjunction as the identical diagram (canonicity, for release-only cuts); simplify(m,R) agrees with m wherever python_full_version "
               "lies in R; both preserve well-formedness (ordered, reduced, partitioning) for every window incl. exclusive/degenerate bounds; the "
-              "composition laws hold pointwise; empty and inverted ranges give FALSE; the functions are total. `simplify_local` (markers agreeing on R "
-              "simplify to the same marker) and the composition laws as diagram equalities are decided by the differential/oracle part, not by a theorem. "
+              "composition laws hold pointwise and, for release-only bounds and cuts, as identities of diagrams; markers that agree inside R simplify to the same "
+              "marker (C12_simplify_local) because outside R the simplified marker only takes values it takes inside (C12_outside_is_inside); off the release-only "
+              "proviso locality is refuted in the model with a witness (a cut at the successor of 3.8, which the crate never produces); empty and inverted ranges "
+              "give FALSE; the functions are total. "
               "Tie: extracted m_simplify_pv / m_complexify_pv vs the crate on its own dumps for random markers x bound pairs (incl. pre/post/dev bounds)."),
         design_ref='DESIGN.md section 7 / C12',
         technique='Coq proof (window restriction/clipping lemmas on partitions) + step-wise differential correspondence + law oracle'),
